@@ -24,6 +24,7 @@ type Engine struct {
 	mu     sync.Mutex
 	fnInfo map[*ssa.Function]*fnInfo
 	violSeen sync.Map // label -> *int32: violations already recorded (saturation)
+	fallbackSeen, fallbackTaken int64 // unsupported paths met / sampled for native replay (per Explore)
 	domCache sync.Map // hash of (variables, applied conjuncts) -> *domEntry
 	qcache sync.Map // canonical query text -> smt.Result (shared by all workers)
 
@@ -87,6 +88,7 @@ type Path struct {
 	lazyN  int
 
 	covers  map[string]bool
+	pools   map[*Value][]Value // sync.Pool contents (environment model)
 	asserts int
 
 	pendingChildren [][]int32
